@@ -2,8 +2,31 @@
 open Model
 open Vio
 
+(* an argument: hex, or "<hexprefix>~<n>~<bb>" = prefix followed by n times the byte bb *)
+let bytes_of_arg (s : string) : n list =
+  if String.contains s '~' then
+    (match split_on '~' s with
+     | [p; cnt; bb] ->
+       let pre = if p = "" then [] else bytes_of_hex p in
+       let b = n_of_int (hexval bb.[0] * 16 + hexval bb.[1]) in
+       pre @ List.init (int_of_string cnt) (fun _ -> b)
+     | _ -> failwith ("bad compact argument " ^ s))
+  else bytes_of_hex s
+(* inverse of bytes_of_arg, same rule as the harness (enc.go encB) *)
+let arg_of_bytes (bs : n list) : string =
+  let len = List.length bs in
+  if len > 512 then begin
+    let arr = Array.of_list (List.map int_of_n bs) in
+    let last = arr.(len - 1) in
+    let i = ref len in
+    while !i > 0 && arr.(!i - 1) = last do decr i done;
+    if !i <= 64 then
+      (if !i > 0 then String.concat "" (List.init !i (fun k -> Printf.sprintf "%02x" arr.(k))) else "")
+      ^ Printf.sprintf "~%d~%02x" (len - !i) last
+    else hex_of_bytes bs
+  end else hex_of_bytes bs
 let list_of_field (s : string) : n list list =
-  if s = "" then [] else List.map bytes_of_hex (split_on ',' s)
+  if s = "" then [] else List.map bytes_of_arg (split_on ',' s)
 
 (* float oracle of one case: "hexarg:hexbits" or "hexarg:e", comma separated; "-" = empty *)
 let pf_of_field (s : string) : (n list -> n option) =
@@ -41,7 +64,7 @@ let () =
                  | VWrite LLocalErr -> "local-err"
                  | VWrite LLocalOk -> "local-ok"
                  | VWrite LNoReply -> "noreply"
-                 | VWrite (LProp (_, a)) -> "prop " ^ String.concat "," (List.map hex_of_bytes a)) in
+                 | VWrite (LProp (_, a)) -> "prop " ^ String.concat "," (List.map arg_of_bytes a)) in
       Printf.printf "%s\t%s\n" id out
     | id :: "A" :: form :: args :: floats :: _ ->
       let out = (match apply_shape (pf_of_field floats) (form = "2") (list_of_field args) with
@@ -49,6 +72,10 @@ let () =
                  | AErr e -> "nopanic perr " ^ hex_of_bytes (err_prefix e)
                  | AReach -> "nopanic store") in
       Printf.printf "%s\t%s\n" id out
+    | id :: "B" :: ts :: args :: _ ->
+      let a = list_of_field args in
+      let name = (match a with n0 :: _ -> lower n0 | [] -> []) in
+      Printf.printf "%s\t%s\n" id (if valid_batchable name a (z_of_int (int_of_string ts)) then "1" else "0")
     | id :: "U" :: text :: _ ->
       Printf.printf "%s\t%s\n" id (if is_unrecovery (bytes_of_hex text) then "1" else "0")
     | _ -> ())
